@@ -97,11 +97,14 @@ class Run:
         if REPLAY is not None:
             print("replay of %s: %d violation(s)" % (os.environ["VERIF_REPLAY"], len(self.violations)))
             return 1 if self.violations else 0
-        os.makedirs(os.path.join(VERIF, "evidence"), exist_ok=True)
-        tmp = os.path.join(VERIF, "evidence", self.pid + ".json.tmp")
+        evdir = os.path.join(VERIF, "evidence")
+        if os.path.realpath(os.environ.get("VERIF_REPO", "/repo")) != "/repo":
+            evdir = "/tmp/verif-alt-evidence"  # runs against scratch copies never touch the committed evidence
+        os.makedirs(evdir, exist_ok=True)
+        tmp = os.path.join(evdir, self.pid + ".json.tmp")
         with open(tmp, "w") as f:
             json.dump(ev, f, indent=1, default=str)
-        os.rename(tmp, os.path.join(VERIF, "evidence", self.pid + ".json"))
+        os.rename(tmp, os.path.join(evdir, self.pid + ".json"))
         print("%s %s: %d cases, %d api calls, %d states, %d distinct non-trivial, exhaustive=%s, %d violation(s), %.1fs" % (
             self.pid, self.tier, c["evaluations"], c["transitions"], c["states"], c["distinct_nontrivial"],
             c["exhaustive"], len(self.violations), wall))
